@@ -36,8 +36,19 @@ func (s *gRPCServer) Close() error {
 }
 
 func (s *gRPCServer) Shutdown(ctx context.Context) error {
-	s.server.GracefulStop()
-	return nil
+	done := make(chan struct{})
+	go func() {
+		s.server.GracefulStop()
+		close(done)
+	}()
+	select {
+	case <-done:
+		return nil
+	case <-ctx.Done():
+		// the graceful stop did not finish in time: close the remaining streams
+		s.server.Stop()
+		return ctx.Err()
+	}
 }
 
 func (s *gRPCServer) Serve(lis net.Listener) error {
